@@ -215,6 +215,9 @@ def raw_bodies():
            ("json-charset", ("raw", "application/json; charset=utf-8", b"[", "bad")),
            ("xml-wrong-ns", ("raw", X, b'<submodel xmlns="urn:x"><id>a</id></submodel>', "bad")),
            ("xml-entity", ("raw", X, b'<!DOCTYPE a [<!ENTITY e "x">]><a>&e;</a>', "bad")),
+           ("surrogate-modeltype", ("raw", J, b'{"modelType":"\\ud800","id":"x"}', "bad")),
+           ("surrogate-key", ("raw", J, b'{"\\udfff":1,"modelType":"Submodel"}', "bad")),
+           ("surrogate-id", ("raw", J, b'{"modelType":"Submodel","id":"x\\ud800"}', "bad")),
            ("deep-json-100000", ("raw", J, b"[" * 100000, "bad")), ("deep-json-object", ("raw", J, b'{"a":' * 50000, "bad")),
            ("deep-xml", ("raw", X, b"<a>" * 20000, "bad"))]
     for lab, d in [("array", [smj]), ("empty-array", []), ("number", 5), ("null", None), ("string", "x"),
@@ -407,6 +410,12 @@ def matrix(routes, rng, full, expects=None):
                 bad.append("semanticId")
             if bad:
                 r["must_reject"] = "malformed query value (" + ", ".join(sorted(set(bad))) + ")"
+        cls0 = r["cls"].split("|")[0]
+        if cls0 in ("aas:unknown", "aas:wrongkind") and r["rule"].startswith("/shells/<base64url:aas_id>") or \
+                cls0 in ("sm:unknown", "sm:wrongkind") and r["rule"].startswith("/submodels/<base64url:submodel_id>") or \
+                cls0 in ("cd:unknown", "cd:wrongkind") and r["rule"].startswith("/concept-descriptions/<base64url:concept_id>"):
+            if ep is not None and ep != "not_implemented":
+                r["must_reject"] = "identifier of no resource of this collection"
         if r.get("path") == "r2" and r["method"] == "POST" and r["rule"].endswith("<id_short_path:id_shorts>"):
             r["oracle_only"] = "an AnnotatedRelationshipElement is a namespace (annotations), modelled as a leaf"
         b = r["body"]
@@ -529,6 +538,16 @@ def scenarios():
             rq(att, "GET", sm=b64("urn:a"), path="f3")]
     for backed in (False, True):
         out.append((f"max-length-file-name-{'file' if backed else 'mem'}", backed, [dict(r) for r in reqs], False))
+    # a SubmodelElementCollection nested ~495 levels deep: decoded and stored, but the encoder's recursion fails
+    deep = {"modelType": "SubmodelElementCollection", "idShort": "d0"}
+    for lvl in range(495):
+        deep = {"modelType": "SubmodelElementCollection", "idShort": f"d{lvl + 1}", "value": [deep]}
+    sm = {"k": "sm", "id": "urn:a", "ids": "S", "tok": 1, "quals": [], "elems": []}
+    reqs = [rq("/submodels", "POST", ("val", "json", sm)),
+            rq(smone + "/submodel-elements", "POST", ("raw", "application/json", json.dumps(deep).encode(), "bad"),
+               sm=b64("urn:a"), sig="deeply-nested-collection"),
+            rq(smone, "GET", sm=b64("urn:a"), sig="deeply-nested-collection")]
+    out.append(("deeply-nested-collection", False, reqs, True))
     # POST of an item into a SubmodelElementList on a backed store (TypeError while building the Location)
     sm = {"k": "sm", "id": "urn:a", "ids": "S", "tok": 1, "quals": [], "elems": [L("l1", [])]}
     reqs = [rq("/submodels", "POST", ("val", "json", sm)),
